@@ -39,7 +39,7 @@ EXPLANATION = (
 )
 
 MANIFEST = {
-    "technique": "static analysis: term-level data-flow of the leaf callback with role discovery of the reversal flag, exhaustive evaluation of the parity decision over clobber x format x default format, argument forwarding by parameter binding (dead parameter), inter-procedural nullness, CFG stage rules, memo-key dependence analysis; package-wide coordinate-system forwarding; per-mode update convention shared with C15; tile paths evaluated per naming scheme (shared with C17); handler-swallow analysis of the leaf-visit worker (shared with C19); pool objects taken apart before the stage analysis; methods of the pyramid I/O object evaluated per truth-table row",
+    "technique": "static analysis: term-level data-flow of the leaf callback with role discovery of the reversal flag, exhaustive evaluation of the parity decision over clobber x format x default format, argument forwarding by parameter binding (dead parameter), inter-procedural nullness, CFG stage rules, memo-key dependence analysis; package-wide coordinate-system forwarding; per-mode update convention shared with C15; tile paths evaluated per naming scheme (shared with C17); handler-swallow analysis of the leaf-visit worker (shared with C19); pool objects taken apart before the stage analysis; methods of the pyramid I/O object evaluated per truth-table row; partial evaluation of the command line's projection dispatch per documented projection type (sampler factory, planetary / panorama flags, depth); Builder.toast_base evaluated per flag combination (coordinate system, forwarding, published data-set type)",
     "text": "Decides the structural premises of 'each tile holds the sampler's values at its own pixel centres in the right row order for every mode/format/worker count'; sampler values themselves are not decided.",
     "note": "Trusted: numpy slicing [::-1] reverses axis 0; Image.from_array keeps the array. Not decided: values returned by samplers (C11), pixel-centre geometry (C05).",
 }
